@@ -144,14 +144,19 @@ class TraitSet(set):
             The updated set.
         """
 
-        old_set = self.copy()
-        retval = super().__iand__(value)
-        removed = old_set.difference(self)
+        if not isinstance(value, (set, frozenset)):
+            return NotImplemented
+
+        # Remove what is not shared rather than letting ``set`` rebuild the
+        # intersection: the built-in may keep the argument's equal-but-not-
+        # identical (and unvalidated) objects in place of our own members.
+        removed = self.difference(value)
+        super().difference_update(removed)
 
         if len(removed) > 0:
             self.notify(removed, set())
 
-        return retval
+        return self
 
     def __ior__(self, value):
         """ Return self |= value.
@@ -312,9 +317,9 @@ class TraitSet(set):
             The other iterables.
         """
 
-        old_set = self.copy()
-        super().intersection_update(*args)
-        removed = old_set.difference(self)
+        # See __iand__: keep our own validated members.
+        removed = self.difference(self.intersection(*args))
+        super().difference_update(removed)
 
         if len(removed) > 0:
             self.notify(removed, set())
